@@ -12,7 +12,7 @@ theorem C10_code_paths_tie :
     Generated.applySkipsOnToken = false ∧ Generated.applyIsPatch = false ∧ Generated.fixReinsertsValue = false := by
   decide
 
-variable {V : Type} [DecidableEq V]
+variable {V : Type} [DecidableEq V] {ra : Bool}
 
 /-- **C10, the host writes.**  For any number of clients and every interleaving of the writer's and
 the readers' frames (bursts in consecutive frames, pauses, readers that poll several updates in one
@@ -20,19 +20,19 @@ frame), the sequence of values each client displays is a subsequence of the valu
 order written: no value that was never written appears, no older value reappears after a newer one. -/
 theorem C10_host_writer_ordered (x : Option V) (s : State V) (as : List (Act V)) (hc : Clean x s)
     (hlog : s.written = [] ∧ ∀ c ∈ s.clients, c.p.shown = []) (ha : ∀ a ∈ as, HostWrites a) :
-    ∀ c ∈ (run false replace s as).clients, List.Sublist c.p.shown (run false replace s as).written :=
+    ∀ c ∈ (run ra false replace s as).clients, List.Sublist c.p.shown (run ra false replace s as).written :=
   host_epoch_ordered x s as hc hlog ha
 
 /-- … ending with the last one: once drained every client displays the most recent write -/
 theorem C10_host_writer_ends_with_last (x : Option V) (s : State V) (as : List (Act V)) (hc : Clean x s)
-    (ha : ∀ a ∈ as, HostWrites a) (hq : Quiescent (run false replace s as)) :
-    ∀ c ∈ (run false replace s as).clients, c.p.val = lastWritten x as :=
+    (ha : ∀ a ∈ as, HostWrites a) (hq : Quiescent (run ra false replace s as)) :
+    ∀ c ∈ (run ra false replace s as).clients, c.p.val = lastWritten x as :=
   fun c hcm => ((host_epoch_converges x s as hc ha hq).2.2.2.2.2 c hcm).1
 
 /-- the full chain invariant, for every reachable state of a host-writer epoch: what a client has
 shown followed by everything still travelling towards it is, in this order, a subsequence of the writes -/
 theorem C10_host_writer_chain (s : State V) (as : List (Act V)) (hi : HOrd s) (ha : ∀ a ∈ as, HostWrites a) :
-    HOrd (run false replace s as) :=
+    HOrd (run ra false replace s as) :=
   hord_run s as hi ha
 
 /-- **C10, a client writes — partial.**  Proved: the host and every third client behind the relay end
@@ -41,15 +41,15 @@ with the last written value, for every schedule and any number of clients.  Miss
 `hdefer`/`repeat_except_for_client`; the trace oracle checks it on every run instead. -/
 theorem C10_client_writer_ends_with_last_partial (w : Nat) (x : Option V) (s : State V) (as : List (Act V))
     (hn : (s.clients.map (·.id)).Nodup) (hw : ∃ c ∈ s.clients, c.id = w) (hc : Clean x s)
-    (ha : ∀ a ∈ as, ClientWrites w a) (hq : Quiescent (run false replace s as)) :
-    (run false replace s as).host.val = lastWritten x as ∧
-      ∀ c ∈ (run false replace s as).clients, c.p.val = lastWritten x as := by
+    (ha : ∀ a ∈ as, ClientWrites w a) (hq : Quiescent (run ra false replace s as)) :
+    (run ra false replace s as).host.val = lastWritten x as ∧
+      ∀ c ∈ (run ra false replace s as).clients, c.p.val = lastWritten x as := by
   have h := client_epoch_converges w x s as hn hw hc ha hq
   exact ⟨h.1, fun c hcm => (h.2.2.2.2.2 c hcm).1⟩
 
 /-- with the pre-repair token skip the order still holds but the end does not (witness of `Props.C02`) -/
 theorem C10_false_ending_with_token_skip :
-    let s := run true replace Props.C02.two Props.C02.d1Witness
+    let s := run false true replace Props.C02.two Props.C02.d1Witness
     (s.clients.map (·.p.shown)) = [[5], [5, 7]] ∧ s.written = [5, 7] := by decide
 
 /-- non-vacuity: a burst of three writes, the client polls two of them in one frame -/
@@ -57,7 +57,7 @@ example :
     let s0 : State Nat := { clients := [{ id := 1 }] }
     let as : List (Act Nat) := [.writeH 1, .detectH, .reactH, .writeH 2, .writeH 3, .detectH, .reactH, .pollC 1 2,
                                 .flushC 1, .flushC 1, .detectC 1]
-    ((run false replace s0 as).clients.map (·.p.shown)) = [[1, 3]] ∧ (run false replace s0 as).written = [1, 2, 3] := by
+    ((run false false replace s0 as).clients.map (·.p.shown)) = [[1, 3]] ∧ (run false false replace s0 as).written = [1, 2, 3] := by
   decide
 
 end Props
